@@ -20,6 +20,8 @@ pub fn prop() -> HistProp {
             p.unbond = 8;
             p.advance = 8;
             p.slash = 3;
+            // the hub is sometimes paused around a removal (a removal must then fail as a whole, not strand the stake)
+            p.pause = 2;
             p.update_index = 2;
             p.prefix_bonds = 2..5;
             p.len = 6..40;
